@@ -631,15 +631,42 @@ Section Sessions.
   Variable sc : scheme.
   Variable S : store.
 
+  Lemma getnode_evs_ok dirty : forall f n done rest g n' r ev,
+    getnode H f sc S dirty n done rest = (g, n', r, ev) -> evs_ok (resolve_of H sc S) ev.
+  Proof.
+    induction f as [|f IH]; intros n done rest g n' r ev E; cbn [getnode] in E.
+    - inversion E; subst. constructor.
+    - destruct n as [|v|k c|cs|h]; [inversion E; subst; constructor| | | |].
+      + destruct rest; [|inversion E; subst; constructor].
+        inversion E; subst; constructor.
+      + destruct rest as [|r0 rr].
+        * repeat (dmatch E; try (inversion E; subst; constructor)).
+        * dmatch E; [inversion E; subst; constructor|].
+          destruct (getnode H f sc S dirty c (done ++ k) (skipn (length k) (r0 :: rr))) as [[[g1 c1] r1] ev1] eqn:G.
+          inversion E; subst. eapply IH; exact G.
+      + destruct rest as [|r0 rr].
+        * repeat (dmatch E; try (inversion E; subst; constructor)).
+        * destruct (child cs r0) as [c|]; [|inversion E; subst; constructor].
+          destruct (getnode H f sc S dirty c (done ++ [r0]) rr) as [[[g1 c1] r1] ev1] eqn:G.
+          apply IH in G.
+          destruct (gres_ok g1 && r1); [destruct (set_child cs r0 c1)|]; inversion E; subst; exact G.
+      + destruct rest as [|r0 rr].
+        * repeat (dmatch E; try (inversion E; subst; constructor)).
+        * destruct (resolve_of H sc S h done) as [[rn blob]|] eqn:RS; [|inversion E; subst; constructor].
+          destruct (getnode H f sc S dirty rn done (r0 :: rr)) as [[[g1 c1] r1] ev1] eqn:G.
+          inversion E; subst. constructor; [exists h, rn; exact RS|eapply IH; exact G].
+  Qed.
+
   (* the states a trie session can reach: trie.New, then any operations *)
   Inductive reach : sess -> Prop :=
   | reach_open root ss : open_trie H sc S root = TOk ss -> reach ss
   | reach_update ss k v ss' : reach ss -> sess_update H sc S ss k v = TOk ss' -> reach ss'
-  | reach_get ss k v ss' : reach ss -> sess_get H sc S ss k = TOk (v, ss') -> reach ss'.
+  | reach_get ss k v ss' : reach ss -> sess_get H sc S ss k = TOk (v, ss') -> reach ss'
+  | reach_getnode ss path g ss' : reach ss -> sess_getnode H sc S ss path = (g, ss') -> reach ss'.
 
   Lemma reach_pv_ok ss : reach ss -> pv_ok (resolve_of H sc S) (s_tr ss).
   Proof.
-    induction 1 as [root ss O|ss k v ss' R IH U|ss k v ss' R IH G].
+    induction 1 as [root ss O|ss k v ss' R IH U|ss k v ss' R IH G|ss path g ss' R IH G].
     - unfold open_trie in O. destruct (bytes_eqb root (H empty_root_preimage)).
       + inversion O; subst. apply pv_ok_empty.
       + destruct (resolve_of H sc S root []) as [[n blob]|] eqn:RS; inversion O; subst.
@@ -656,6 +683,10 @@ Section Sessions.
       destruct (get (resolve_of H sc S) (ops_fuel (keybytes_to_hex k)) (s_root ss) [] (keybytes_to_hex k))
         as [[[[v1 n] d] ev]|e] eqn:D; inversion G; subst. cbn.
       apply trace_evs_pv_ok; [eapply get_evs_ok; exact D|exact IH].
+    - unfold sess_getnode, sess_getnode_with in G.
+      destruct (getnode H (2 * length path + 4) sc S (dirty_at ss) (s_root ss) [] path) as [[[g1 n1] r1] ev1] eqn:D.
+      inversion G; subst. cbn [s_tr].
+      apply trace_evs_pv_ok; [eapply getnode_evs_ok; exact D|exact IH].
   Qed.
 
   Lemma resolve_of_blob h p n b :
